@@ -161,6 +161,11 @@ class GaussianMLPEnsemble(nnx.Module):
         epistemic_var = jnp.var(means, axis=0)
         return mean, aleatoric_var + epistemic_var
 
+    def _bound_log_var(self, log_var: jnp.ndarray) -> jnp.ndarray:
+        """Soft bounds per output; broadcasts over leading axes."""
+        log_var = self.max_log_var - nnx.softplus(self.max_log_var - log_var)
+        return self.min_log_var + nnx.softplus(log_var - self.min_log_var)
+
     def base_predict(self, x, i):
         """Make prediction with individual model.
 
@@ -184,9 +189,7 @@ class GaussianMLPEnsemble(nnx.Module):
         state_i = jax.tree.map(lambda x: x[i], state)
         base_model = nnx.merge(graphdef, state_i)
         mean_i, log_var_i = base_model(x)
-        log_var_i = self._safe_log_var(
-            log_var_i, self.min_log_var, self.max_log_var
-        )
+        log_var_i = self._bound_log_var(log_var_i)
         return mean_i, jnp.exp(log_var_i)
 
     def base_distribution(
@@ -211,9 +214,7 @@ class GaussianMLPEnsemble(nnx.Module):
         state_i = jax.tree.map(lambda x: x[i], state)
         base_model = nnx.merge(graphdef, state_i)
         mean_i, log_var_i = base_model(x)
-        log_var_i = self._safe_log_var_i(
-            log_var_i, self.min_log_var, self.max_log_var
-        )
+        log_var_i = self._bound_log_var(log_var_i)
         std_i = jnp.exp(0.5 * log_var_i)
         return dist.MultivariateNormalDiag(loc=mean_i, scale_diag=std_i)
 
